@@ -1,9 +1,11 @@
 ------------------------------ MODULE MC_Queue ------------------------------
 EXTENDS PrunableQueue, TLC, Json
-CONSTANTS MaxOps
-Msgs == [s : {1, 2}, k : {"commit", "timeout"}, v : 0..2, ok : {TRUE}, c : {0}] \cup [s : {1, 2}, k : {"commit"}, v : {2}, ok : {FALSE}, c : {0}]
+CONSTANTS MaxOps, Alphabet    \* "full": every message shape, short sequences; "small": two senders, one kind, three views - longer sequences
+MsgsFull == [s : {1, 2}, k : {"commit", "timeout"}, v : 0..2, ok : {TRUE}, c : {0}] \cup [s : {1, 2}, k : {"commit"}, v : {2}, ok : {FALSE}, c : {0}]
         \cup [s : {1}, k : {"commit", "timeout"}, v : 0..2, ok : {TRUE}, c : {1}]     \* validly signed, names another genesis
         \cup [s : {1}, k : {"commit"}, v : 0..2, ok : {TRUE}, c : {2}]                \* validly signed, another block
+MsgsSmall == [s : {1, 2}, k : {"commit"}, v : 0..2, ok : {TRUE}, c : {0}]
+Msgs == IF Alphabet = "small" THEN MsgsSmall ELSE MsgsFull
 Init == q = <<>> /\ hist = <<>>
 Next == Len(hist) < MaxOps /\ (Recv \/ \E m \in Msgs : Send(m))
 Done == Len(hist) = MaxOps => PrintT(<<"CASE", ToJson([ops |-> hist])>>)
